@@ -74,6 +74,8 @@ def stage_generate(job, work, binary, flags, seed, variant):
         extra_max = ['--max-states', str(ms)] if ms else []
     job['driver'] = drv
     extra = list(extra_max) + ['--keytype', variant[0], '--hasher', variant[1]]
+    if inst.get('khtable'):
+        extra += ['--khtable', json.dumps(inst['khtable'])]
     if inst.get('random') and not job.get('no_random'):
         n, ln = inst['random']
         extra += ['--random', '%d,%d,%d' % (n, ln, seed + 1), '--dump-hists', work.path(tag + '.hists')]
